@@ -199,14 +199,22 @@ func c18Unpack13Codec(cidLen int, required, enabled bool) *v.Codec {
 		return append(raw, body...)
 	}
 	var corpus [][]byte
+	// a well-framed ACK record with an empty body
+	zero := []byte{26, 254, 253, 0, 0, 0, 0, 0, 0, 0, 0, 0, 0}
 	if cidLen == 1 && enabled {
 		r1 := append([]byte{60, 1, 0, 7, 0, 16}, bytes.Repeat([]byte{170}, 16)...)
 		r2 := append([]byte{60, 2, 0, 8, 0, 16}, bytes.Repeat([]byte{187}, 16)...)
-		corpus = [][]byte{append(append([]byte{}, r1...), r2...)} // second record has another CID
+		corpus = [][]byte{
+			append(append([]byte{}, r1...), r2...), // second record has another CID
+			// ... and with an empty plaintext record in between: what is returned ends in that
+			// record and is itself rejected when unpacked again
+			append(append(append([]byte{}, r1...), zero...), r2...),
+		}
 	}
 
 	return &v.Codec{
 		Name: "unpack13", ID: 23, Ctx: []int{cidLen, b2i(required), b2i(enabled)}, Corpus: corpus,
+		CorpusValid: [][]byte{zero},
 		Decode: func(in []byte) (*v.Decoded, error) {
 			recs, err := UnpackDatagram13(in, cidLen, required, enabled)
 			if err != nil {
